@@ -20,6 +20,8 @@ def run(ctx):
     for k in range(4 if q else 16):
         add("plain", fam="walk", n=25 if q else 100, grid=6, mul=2, emb="0", cfg="lite" if k % 2 else "full", seed=s * 100 + 30 + k)
     add("plain", fam="ladder", emb="0", npts=40, cfg="lite", seed=s)
+    for k in range(4 if q else 12):   # concentric rings + rectangles collinear with ring edges: nested polygons merged by horizontal joins
+        add("plain", fam="ringrect", n=60 if q else 250, emb="0", cfg="lite" if k % 2 else "full", seed=s * 100 + 80 + k)
     if not q:
         for k in range(8):
             add("plain", fam="nest", n=60, emb="2,3", npts=40, cfg="lite", seed=s * 100 + 60 + k)
